@@ -218,15 +218,18 @@ def loop_shape(S, method):
     ii = [n for n in S.call_nodes() if n.ci["k"] == "call" and n.ci["npath"] == "std::iter::IntoIterator::into_iter"]
     src_ok = False
     if len(ii) == 1:
-        a0 = strip(S.args_of(ii[0])[0])
+        def whole(x):
+            # views of the whole receiver: Deref to the slice, as_slice(), as_ref() (designation-transparent, no sub-range)
+            x = strip(x)
+            while isinstance(x, tuple) and x[0] in ("call", "ret") and x[1].endswith(("Deref::deref", "::as_slice", "AsRef::as_ref", "::as_mut_slice")) and x[2]:
+                x = strip(x[2][0])
+            return x
+        a0 = whole(S.args_of(ii[0])[0])
         if a0 == ("param", "self", 1):
             src_ok = True
         elif isinstance(a0, tuple) and a0[0] in ("call", "ret") and a0[1].endswith("::iter") and len(a0[2]) == 1:
-            # `self.iter()`: slice/Vec/array iter over the whole receiver (Deref to the slice is designation-transparent)
-            base = strip(a0[2][0])
-            while isinstance(base, tuple) and base[0] in ("call", "ret") and base[1].endswith(("Deref::deref", "::as_slice")) and base[2]:
-                base = strip(base[2][0])
-            src_ok = base == ("param", "self", 1)
+            # `self.iter()`: slice/Vec/array iter over the whole receiver
+            src_ok = whole(a0[2][0]) == ("param", "self", 1)
     if not src_ok:
         probs.append("iterator is not built from the whole `self`: %s" % [fmt(S.args_of(x)[0]) for x in ii])
     nx = [n for n in S.call_nodes() if n.ci["k"] == "call" and n.ci["npath"] == "std::iter::Iterator::next"]
